@@ -35,7 +35,7 @@ def make_wl(rng, k):
             spec.update(paralogs=0, intergenic_multi=0, decoy_chr=0, supplementary=0)
     if mode == "file":
         # the documented table layouts: file:<path>[:<read col>:<group col>[:<delim>]], plain or gzipped
-        opts["group_table_fmt"] = [None, "0:1:tab:gz", "2:0:comma", "1:3:semi:gz", "3:1:space", "1:0:tab"][(i // 4) % 6]
+        opts["group_table_fmt"] = [None, "2:1:tab:gz:short", "2:0:comma", "1:3:semi:gz", "3:1:space", "1:0:tab"][(i // 4) % 6]
     if mode == "tag":
         spec["group_tag"] = ["RG", "XG", "RG", "HP"][(i // 4) % 4]
         if (i // 4) % 4 == 2:
